@@ -337,7 +337,8 @@ package internal
 //@   requires s != nil && yield != nil
 //@   assigns *
 //@   loop 0 invariant *s == old(*s) && 0 <= rangeint_iter && rangeint_iter < len(*s)
-//@   loop 0 invariant inQuotes == csvQ(*s, rangeint_iter) && escape == csvE(*s, rangeint_iter)      # name: quoting-state-machine
+//@   loop 0 invariant inQuotes == csvQ(*s, rangeint_iter)                                           # name: splits-only-outside-quoted-strings
+//@   loop 0 invariant escape == csvE(*s, rangeint_iter)                                             # name: backslash-escapes-the-next-byte
 //@   loop 0 decreases len(*s) - rangeint_iter                                                       # name: tokenizer-terminates   props: C10 C12
 //@ func TrimmedCSVSeq
 //@   trusted
